@@ -12,20 +12,20 @@ let n = nat_of_int
 let arg_of kind x : int arg = if kind = "r" then ArgRef (n (int_of_string x)) else ArgVal (int_of_string x)
 
 let parse_op0 (cnt : int) (tok : string) : int op =
-  match String.split_on_char ':' tok with
+  match Stdlib.String.split_on_char ':' tok with
   | ["ab"; k; x] -> OAddBack (arg_of k x)
   | ["abm"; k; x] -> OAddBackR (arg_of k x)
   | ["ins"; j; c; k; x] -> OInsert (n (int_of_string j), n (int_of_string c), arg_of k x)
   | ["ins1"; j; k; x] -> OInsert (n (int_of_string j), n 1, arg_of k x)
   | ["insm"; j; k; x] -> OInsertR (n (int_of_string j), arg_of k x)
   | ["insr"; j; vs] ->
-    let l = if vs = "" then [] else Stdlib.List.map int_of_string (String.split_on_char ',' vs) in
+    let l = if vs = "" then [] else Stdlib.List.map int_of_string (Stdlib.String.split_on_char ',' vs) in
     OInsertRange (n (int_of_string j), l)
   | ["insi"; j; vs] ->
-    let l = if vs = "" then [] else Stdlib.List.map int_of_string (String.split_on_char ',' vs) in
+    let l = if vs = "" then [] else Stdlib.List.map int_of_string (Stdlib.String.split_on_char ',' vs) in
     OInsertInput (n (int_of_string j), l)
   | ["asgr"; vs] ->
-    OAssignRange (if vs = "" then [] else Stdlib.List.map int_of_string (String.split_on_char ',' vs))
+    OAssignRange (if vs = "" then [] else Stdlib.List.map int_of_string (Stdlib.String.split_on_char ',' vs))
   | ["rb"; c] -> ORemoveBack (n (int_of_string c))
   | ["clr"; b] -> OClear (b = "1")
   | ["rm"; j; c] -> ORemove (n (int_of_string j), n (int_of_string c))
@@ -37,10 +37,10 @@ let parse_op0 (cnt : int) (tok : string) : int op =
   | ["set"; i; v] -> OSet (n (int_of_string i), int_of_string v)
   | _ -> failwith ("bad op " ^ tok)
 
-let ints vs = if vs = "" then [] else Stdlib.List.map int_of_string (String.split_on_char ',' vs)
+let ints vs = if vs = "" then [] else Stdlib.List.map int_of_string (Stdlib.String.split_on_char ',' vs)
 (* cur = the current element sequence (copy construction / copy assignment = a new array built from it) *)
 let parse_op (cnt : int) (cur : int option list) (tok : string) : int op option =
-  match String.split_on_char ':' tok with
+  match Stdlib.String.split_on_char ':' tok with
   | ["emb"; k; x] -> Some (OAddBack (arg_of k x))                      (* AddBackVar / emplace_back *)
   | ["emi"; j; k; x] -> Some (OInsert (n (int_of_string j), n 1, arg_of k x))   (* InsertVar / emplace: always a temporary *)
   | ["insl"; j; vs] -> Some (OInsertRange (n (int_of_string j), ints vs))       (* initializer list = forward range *)
@@ -67,23 +67,23 @@ let () = iter_lines (fun line ->
     let show res = match res with
       | GenPrelude.Ok ((_, items'), cnt') ->
         let m = int_of_z cnt' in
-        "ok [" ^ String.concat "," (Stdlib.List.init m (fun k -> string_of_z (items' (z_of_int k)))) ^ "]"
+        "ok [" ^ Stdlib.String.concat "," (Stdlib.List.init m (fun k -> string_of_z (items' (z_of_int k)))) ^ "]"
       | GenPrelude.Stuck -> "abort" | GenPrelude.Exn -> "exception" | GenPrelude.Fuel -> "fuel" in
     print_endline (match fn with
       | "remove" -> show (Gen_ShiftLoops.coq_ShiftRemove items zn zc zi zk)
       | "insert" -> show (Gen_ShiftLoops.coq_ShiftInsert items zn zc zi zk item_idx)
       | "ainsert" ->
-        (* Array::Insert glued from the generated pieces (InsertGlue.gen_array_insert): buffer at address 1000, the ItemHandler temporary
+        (* Array::Insert from the generated pieces, its branches EXECUTED FROM THE AST FACTS (FactsProofs.gen_array_insert_f): buffer at address 1000, the ItemHandler temporary
            in cell 2^64 + 1, an external item in cell 2^64 + 7 (value 5) at address 7 *)
         let big k = z_of_string (Z.to_string (Z.add (Z.shift_left Z.one 64) (Z.of_int k))) in
         let aliased = int_of_string iis < ni in
         let it = if aliased then z_of_string iis else big 7 in
         let items2 = fun j -> if string_of_z j = string_of_z (big 7) then z_of_int 5 else items j in
         let ptr = if aliased then z_of_int (1000 + int_of_string iis) else z_of_int 7 in
-        (match InsertGlue.gen_array_insert false items2 zn zc (z_of_int 1000) zi zk it ptr (big 1) with
+        (match FactsProofs.gen_array_insert_f false items2 zn zc (z_of_int 1000) zi zk it ptr (big 1) with
          | GenPrelude.Ok ((items', cnt'), _) ->
            let m = int_of_z cnt' in
-           "ok [" ^ String.concat "," (Stdlib.List.init m (fun k -> string_of_z (items' (z_of_int k)))) ^ "]"
+           "ok [" ^ Stdlib.String.concat "," (Stdlib.List.init m (fun k -> string_of_z (items' (z_of_int k)))) ^ "]"
          | GenPrelude.Stuck -> "abort" | GenPrelude.Exn -> "exception" | GenPrelude.Fuel -> "fuel")
       | _ -> "?")
   | ["gd"; "indexof"; ns; _caps; idx; _] ->
@@ -119,7 +119,7 @@ let () = iter_lines (fun line ->
       | "segrb" -> (match Gen_GuardsSeg.coq_SegRemoveBack_guard zn zk with GenPrelude.Ok _ -> "ok" | o -> word o)
       | _ -> "?")
   | cont :: elem :: ic :: nm :: nr :: ops ->
-    let is_arr = String.length cont >= 3 && String.sub cont 0 3 = "arr" in
+    let is_arr = Stdlib.String.length cont >= 3 && Stdlib.String.sub cont 0 3 = "arr" in
     let is_vec = cont = "vec" in
     let icn = if is_arr || is_vec then int_of_string ic else 0 in
     let some v = Some v and none _ = None in
